@@ -13,6 +13,7 @@ def gen(src, consts):
     body = [st for st in loops[0].body if not is_logging(st)]
     defers = False
     requires_open = False
+    keeps = True
     first = body[0]
     if isinstance(first, ast.Expr) and ast.unparse(first.value) == 'connection_adapter.check_for_errors()':
         pass
@@ -28,6 +29,10 @@ def gen(src, consts):
             texts = texts[1:]
         if texts == ['connection_adapter.exceptions.insert(0, %s)' % h.name]:
             defers = True
+        elif texts in ([], ['pass']):
+            # the wait goes on, but the error that check_for_errors popped is not put back: it is lost
+            defers = True
+            keeps = False
         else:
             raise ExtractError('_wait_for_request: unrecognised AMQPMessageError handler: %r' % texts)
     else:
@@ -41,7 +46,9 @@ def gen(src, consts):
             'def defersMessageError : Bool := %s\n'
             '/-- … only while the channel is open (a closed channel raises at once) -/\n'
             'def deferralRequiresOpen : Bool := %s\n'
-            'end Amqp.Gen.RpcWait\n' % (str(defers).lower(), str(requires_open).lower()))
+            '/-- the deferred error is put back (false: the handler drops it and nobody ever sees it) -/\n'
+            'def keepsDeferredError : Bool := %s\n'
+            'end Amqp.Gen.RpcWait\n' % (str(defers).lower(), str(requires_open).lower(), str(keeps).lower()))
 
 
 FILES = {'RpcWait.lean': gen}
